@@ -63,6 +63,25 @@ def runOracle (line : String) : String :=
   | 'H' => oracleHigh rest real
   | 'Y' => oracleGrey rest real
   | 'T' => oracleTerminal cfg rest real
+  | 'M' =>
+    -- the real answer is `<shared> ## <alone>`: each terminal's bytes must not depend on the manipulator OBJECT having been
+    -- used on another terminal before (C12: no hidden state shared between instances), and each terminal's bytes are
+    -- judged as the terminal script they are (C01 … C13)
+    match real.splitOn " ## " with
+    | [shared, alone] =>
+      let sh := shared.splitOn " || "
+      let al := alone.splitOn " || "
+      let scripts := multiScripts rest
+      let judged := (scripts.zip sh).map fun (sc, r) => oracleTerminal cfg sc r.trimAscii.toString
+      let tfail := (judged.find? (· ≠ "ok")).map fun v => (v.drop 5).toString
+      let c12 := (((List.range sh.length).zip (sh.zip al)).find? fun (_, a, b) => a.trimAscii.toString ≠ b.trimAscii.toString).map
+        fun (k, _, _) => s!"C12 terminal {k} of the script is sent different bytes when the manipulator objects are shared with the other terminals than when it runs alone"
+      match c12, tfail with
+      | none, none => "ok"
+      | some a, none => "FAIL " ++ a
+      | none, some b => "FAIL " ++ b
+      | some a, some b => "FAIL " ++ a ++ " | " ++ b
+    | _ => "FAIL C12 unreadable answer"
   | _ =>
     (Values.oracle kind cfg rest real <|> Canvas.oracle kind cfg rest real <|> Input.oracle kind cfg rest real
       <|> Markup.oracle kind cfg rest real <|> Strings.oracle kind cfg rest real
